@@ -325,7 +325,7 @@ PROPS = {
         assumptions=["period > 0 (daemon mode: cli.rs maps frequency 0 to one-shot, init_loop takes NonZeroU64)",
                      "timers are prompt (a tick fires at its deadline); real-time latency is outside the model",
                      "no two select! arms become ready at the same instant (the real choice is random)",
-                     "successful runs are not exercised against the real code yet"],
+                     "successful runs are exercised in real time only (three to five short histories per run; a 66 s one in the thorough tier)"],
     ),
     "C12": dict(
         thm=["Bgpfu.Thm.C12"],
@@ -470,7 +470,7 @@ PROPS = {
                  "parseAttr by `ser parse` correspondence rows on every leaf it extracts)",
                  "chrono / Display formatting of at-time, numbers, prefixes and filter expressions (their results are "
                  "ordinary escaped leaves)"],
-        assumptions=["values are strings of XML 1.0 Chars", "caller-supplied fragments are well-formed content",
+        assumptions=["none on text values: a value XML 1.0 cannot carry must be refused (D19)", "caller-supplied fragments are well-formed content",
                      "load-configuration sources ConfigurationRevision / Rollback / Url have no public constructor: "
                      "modelled, not exercised"],
     ),
